@@ -452,7 +452,11 @@ def logs_s(draw):
     keys = draw(st.lists(st.sampled_from(LOG_KEYS), min_size=n, max_size=n, unique=True))
     out = []
     for k in keys:
-        if draw(st.booleans()):
+        if draw(st.integers(0, 34)) == 0:
+            # a destination that cannot be opened (missing directory / a directory): the daemon may refuse to run,
+            # but log text must not end up on the server channel instead
+            out.append([k, draw(st.sampled_from(["file:no-such-dir/x.log", "file:.", "file:/nonexistent/iauthd/y.log"]))])
+        elif draw(st.booleans()):
             out.append([k, "file:log%d.txt" % draw(st.integers(0, 2))])
         else:
             out.append([k, ["file:log%d.txt" % i for i in draw(st.lists(st.integers(0, 2), min_size=1, max_size=3, unique=True))]])
@@ -483,7 +487,7 @@ def c09_s(draw, pid, tier, opts=None):
         if k < 6:
             events.insert(pos, ["raw", draw(st.sampled_from(noisy))])
         elif k < 8:
-            events.insert(pos, ["reload", draw(st.sampled_from(["same", "broken", "broken2"]))])
+            events.insert(pos, ["reload", draw(st.sampled_from(["same", "broken", "broken2", "badlog", "same"]))])
         else:
             ids = [e[1] for e in events if e[0] == "C"]
             events.insert(pos, ["X", draw(st.sampled_from(ids)) if ids else 1, "alpha.ex", "WHAT is this", "cur"])
@@ -548,7 +552,10 @@ def eval_c09(case, ctx):
             for i, ev in enumerate(case["events"]):
                 if ev[0] == "reload":
                     noisy = True
-                    newtext = text if ev[1] == "same" else BROKEN_CONF[0 if ev[1] == "broken" else 2]
+                    if ev[1] == "badlog":
+                        newtext = ep.conf_text(dict(case["conf"], logs=[["*.*", "file:no-such-dir/z.log"]] + [list(x) for x in case["conf"].get("logs", [])[:1]]))
+                    else:
+                        newtext = text if ev[1] == "same" else BROKEN_CONF[0 if ev[1] == "broken" else 2]
                     out, in_use, stats = d.reload(newtext)
                     all_lines.extend(b.decode("latin-1") for b in out + stats)
                     continue
